@@ -69,3 +69,34 @@ Proof.
            (load_probing_inv N buckets rm true up unigrams higher tp HN Hl HU Hs Hw (fun E => False_ind _ (Bool.diff_true_false E)) Hp)
            (load_trie_inv N unigrams higher up tt HN Hlen Hw Ht) ctx w H1 H2).
 Qed.
+
+(* The quantiser (lm/quantize.cc MakeBins, SeparatelyQuantize::Bins::Encode/Decode) over exact rationals.
+   What holds: every code is inside the table and never collides with the two reserved back-off codes; the code written
+   is the index of a NEAREST centre, so a value that is itself a centre reads back exactly.
+   What the property text claims beyond that -- "lossless when no order has more distinct values than bins" -- is false of
+   equal-population bins (finding F5), and one back-off bit leaves no value bin at all (finding F6): kernel-checked witnesses. *)
+From Coq Require Import QArith Qabs.
+From Kenlm Require Import C03.QuantModel C03.QuantProofs.
+Theorem C03_quant_code_in_range : forall centers reserved x, (reserved < length centers)%nat ->
+  (reserved <= QuantModel.encode centers reserved x < length centers)%nat.
+Proof. exact encode_in_range. Qed.
+
+Theorem C03_quant_encode_nearest : forall qs reserved x, sorted_q qs -> (reserved < length qs)%nat ->
+  forall j, (reserved <= j < length qs)%nat ->
+  (Qabs (x - nth (QuantModel.encode (map Some qs) reserved x) qs 0) <= Qabs (x - nth j qs 0))%Q.
+Proof. exact encode_nearest. Qed.
+
+Theorem C03_quant_exact_on_centres : forall qs reserved x j, sorted_q qs -> (reserved <= j < length qs)%nat ->
+  (x == nth j qs 0)%Q -> (nth (QuantModel.encode (map Some qs) reserved x) qs 0 == x)%Q.
+Proof. exact encode_exact_on_centres. Qed.
+
+Theorem C03_quant_lossless_refuted :
+  exists (probs : list Q) (bits : nat) (v : Q),
+    In v probs /\ (distinct_count probs <= 2 ^ bits)%nat /\
+    QuantModel.decode (train_prob bits probs) (encode_prob (train_prob bits probs) v) = Some (-3 # 2)%Q /\ ~ (-3 # 2 == v)%Q.
+Proof. exact quant_lossless_refuted. Qed.
+
+Theorem C03_quant_backoff_bits1_refuted :
+  exists (backoffs : list Q) (b : Q), In b backoffs /\ ~ (b == 0)%Q /\
+    encode_backoff_nonzero (train_backoff 1 backoffs) b = 2%nat /\ stored 1 2 = 0%nat.
+Proof. exact quant_backoff_bits1_refuted. Qed.
